@@ -177,12 +177,14 @@ func (r *c11run) drainStale() {
 			defer putBuf(bp)
 			old := st.handles[0]
 			next := st.ro.OldRead
-			var err error
+			// Read on a closed connection picks at random between the error and the next queued frame:
+			// errors before the queue is drained say nothing; once it is drained Read has to fail
+			drainedErr := false
 			for k := 0; k < st.queued+errsToStop; k++ {
-				var n int
-				n, err = old.Read(*bp)
+				n, err := old.Read(*bp)
 				if err != nil {
 					if next >= st.ro.OldFrames {
+						drainedErr = true
 						break
 					}
 					continue
@@ -198,9 +200,11 @@ func (r *c11run) drainStale() {
 				}
 				next++
 			}
-			if err == nil {
-				r.failf("id=%d: Read on the closed handle keeps succeeding after its queue was drained", id)
-				return
+			if next >= st.ro.OldFrames && !drainedErr {
+				if n, err := old.Read(*bp); err == nil {
+					r.failf("id=%d: Read on the closed handle returned %d bytes after all %d frames sent to it had been read (must fail)", id, n, st.ro.OldFrames)
+					return
+				}
 			}
 			for _, h := range st.handles {
 				if _, werr := h.Write([]byte{1}); werr == nil {
